@@ -105,6 +105,11 @@ func init() {
 			// phase 1: build a reachable state with the background switched off (things pile up)
 			cfg := randCfg(r, nil)
 			cfg.Bg = nil // phase 1 runs without background processing
+			if r.Intn(2) == 0 {
+				// ... except the dispatch cycle, so that handed-off (enqueued) tasks whose lease will have run out exist
+				cfg.Bg = []string{"EnqueueTasks"}
+				cfg.BgPeriod = 1
+			}
 			cfg.ApiSize = 1000
 			cfg.Sys.CoroutineMaxSize = pick(r, 1, 2, 3, 100)
 			cfg.Sys.PromiseBatchSize = pick(r, 1, 2, 7, 100)
